@@ -24,7 +24,12 @@ def main():
         for d in sorted(glob.glob(f'{V}/seeded/{pid}-*')):
             m = json.load(open(f'{d}/meta.json'))
             r = m.get('checks_run', '')
-            tag = 'caught' if 'CAUGHT' in r and 'MISSED' not in r else ('caught after strengthening' if 'CAUGHT' in r else 'MISSED')
+            if r.startswith('caught at once'):
+                tag = 'caught'
+            elif r.startswith('missed at first'):
+                tag = 'caught after strengthening'
+            else:
+                tag = 'caught' if 'CAUGHT' in r and 'MISSED' not in r else ('caught after strengthening' if 'CAUGHT' in r else 'MISSED')
             seeds.append(f"{os.path.basename(d)}: {tag}")
         ev = {}
         try:
